@@ -122,7 +122,7 @@ def gen_doc(rng, specials=False, imports=True, resets=True):
         if resets and len(cvars[c]) >= 2 and rng.random() < 0.3:
             v, w = cvars[c][0]['name'], cvars[c][1]['name']
             order[0] += 1
-            oa = att('order', str(order[0])) if (rng.random() < 0.97 or not specials) else ''
+            oa = att('order', str([0, -1, 1, 2, -7, 3, 100, 4, 5, 6, 7, 8, 9][(order[0] - 1) % 13])) if (rng.random() < 0.97 or not specials) else ''
             body.append('    <reset%s%s%s%s>' % (att('variable', v), att('test_variable', w), oa, idatt()))
             body.append('      <test_value%s><math xmlns="%s"><cn cellml:units="%s">%d</cn></math></test_value>' % (idatt(), MML, cvars[c][1]['units'], rng.randrange(9)))
             body.append('      <reset_value%s>\n        <math xmlns="%s">\n          <cn cellml:units="%s">%d</cn>\n        </math>\n      </reset_value>' % (idatt(), MML, cvars[c][0]['units'], rng.randrange(9)))
